@@ -22,7 +22,7 @@ TESTS = {
     "C10": [s1("TestC10_S1Loads", 20000, 250000)],
     "C11": [s1("TestC11_S1Refresh", 20000, 250000), s1("TestC11_S1NoRefresh", 3000, 30000, qshards=1, tshards=4)],
     "C12": [s1("TestC12_S1Deadlines", 20000, 250000)],
-    "C13": [s1("TestC13_S1Sweep", 20000, 250000)],
+    "C13": [s1("TestC13_S1Sweep", 20000, 250000), s1("TestC13_ClockGate", 6000, 100000)],
     "C14": [s1("TestC14_DrainProtocol", 6000, 150000, timeout_t=2400)],
     "C15": [s1("TestC15_SeqModel", 4000, 60000), s1("TestC15_Concurrent", 250, 4000, timeout_t=2400)],
     "C16": [s1("TestC16_SeqModel", 8000, 150000), s1("TestC16_Concurrent", 150, 3000, timeout_t=2400)],
